@@ -271,7 +271,7 @@ size_t g_len;
 void h_ifp_build(void) {
   ldb_bloom_t ifp; ldb_buffer_t dst; ldb_slice_t *keys;
   IN_SIZE(in_len); IN_SIZE(in_j); IN_SIZE(in_jsize);
-  ASSUME(in_len < ((size_t)1 << 30));
+  ASSUME(in_len < ((size_t)1 << 32));
   keys = malloc((in_len + 1) * sizeof(ldb_slice_t)); ASSUME(keys != NULL);
   g_up.name = "model.policy"; g_up.build = stub_ubuild; g_up.match = stub_umatch; g_up.bits_per_key = 0; g_up.k = 0; g_up.user_policy = NULL; g_up.state = NULL;
   g_up_builds = 0; g_up_matches = 0;
